@@ -143,6 +143,8 @@ def _op_str(op):
         return f"delblock {op['tok']} proxy={op.get('proxy')}"
     if k == "rep":
         return f"rep {op['from']}..{op['to']}: " + _patch_str(op["patch"])
+    if k == "delfn":
+        return f"delfn {op['func']}"
     return json.dumps(op)[:80]
 
 
